@@ -127,12 +127,18 @@ def _poly_function(S, d, deg, coeffs):
     return Poly()
 
 
-def hier_local(S, family, p, levels, boundary, out_len, box):
+def hier_local(S, family, p, levels, boundary, out_len, box, sub=None):
     G = _G()
     d = len(levels)
     a = np.array([box[0]] * d, dtype=float)
     b = np.array([box[1]] * d, dtype=float)
     grid = (G.LagrangeGrid if family == 'lagrange' else G.BSplineGrid)(a, b, boundary=boundary, p=p)
+    if sub is not None:
+        # the grid is used on a sub-area of its domain (what the extend-split scheme does after the first split): [a,b] above stays the
+        # domain of the grid object, the operations below run on [start,end]
+        w = box[1] - box[0]
+        a = np.array([box[0] + sub[k % len(sub)][0] * w for k in range(d)], dtype=float)
+        b = np.array([box[0] + sub[k % len(sub)][1] * w for k in range(d)], dtype=float)
     f = lib.make_function(S, 'F', d, out_len)
     integral = grid.integrate(f, list(levels), a, b)
     pts = [tuple(float(x) for x in q) for q in grid.getPoints()]
@@ -326,6 +332,12 @@ def jobs(tier):
                     n += 1
                     js.append(Job('hier-local[%s,p=%d,l=%s,%s,out=%d]' % (family, p, 'x'.join(map(str, levels)), 'b' if boundary else 'nb', out_len), hier_local,
                                   {'family': family, 'p': p, 'levels': list(levels), 'boundary': boundary, 'out_len': out_len, 'box': list(box)}, budget_s=(600 if q else 3000)))
+            for levels, sub in ([((2,), [(0.0, 0.5)]), ((2, 1), [(0.5, 1.0), (0.25, 0.5)])] if q else [((1,), [(0.5, 1.0)]), ((2,), [(0.0, 0.5)]), ((3,), [(0.25, 0.5)]), ((2, 1), [(0.5, 1.0), (0.25, 0.5)]), ((2, 2), [(0.0, 0.5), (0.5, 0.75)])]):
+                out_len = 2 if n % 2 else 1
+                box = (0.0, 1.0) if n % 3 else (-3.0, 6.0)
+                n += 1
+                js.append(Job('hier-local-sub[%s,p=%d,l=%s,sub=%s,out=%d]' % (family, p, 'x'.join(map(str, levels)), sub, out_len), hier_local,
+                              {'family': family, 'p': p, 'levels': list(levels), 'boundary': True, 'out_len': out_len, 'box': list(box), 'sub': [list(x) for x in sub]}, budget_s=(600 if q else 3000)))
             for level in ((1, 2, 3) if q else (1, 2, 3, 4)):
                 js.append(Job('poly-local[%s,p=%d,l=%d]' % (family, p, level), poly_local, {'family': family, 'p': p, 'level': level, 'box': [0.0, 1.0]},
                               validate=(3 if q else 1), budget_s=(600 if q else 3000)))
